@@ -24,6 +24,7 @@ import (
 	"os"
 	"path/filepath"
 	"reflect"
+	"runtime/debug"
 	"sort"
 	"strings"
 	"sync"
@@ -745,6 +746,10 @@ func (w *c18World) summary() (classes map[string]int64, reasons int, kindsChange
 func TestVerifC18(t *testing.T) {
 	r := ev.Start(t, "C18")
 	defer r.Finish()
+	// The live heap is tiny and the allocation rate huge (every apply clones the state several
+	// times): collect by memory limit instead of by growth ratio.
+	defer debug.SetGCPercent(debug.SetGCPercent(-1))
+	defer debug.SetMemoryLimit(debug.SetMemoryLimit(3 << 30))
 	defer func() {
 		for _, d := range c18Cleanup {
 			os.RemoveAll(d)
